@@ -15,7 +15,8 @@
 (* C15: the cost admitted for the subnet within the instant never exceeds    *)
 (* the burst.                                                                *)
 EXTENDS Integers, FiniteSets
-CONSTANTS Proc, Burst, MaxCalls, MaxEnt, AtomicForget
+CONSTANTS Proc, Burst, MaxCalls, MaxEnt, AtomicForget,
+          RetryDeletes   \* sensitivity: a caller that finds its bucket dead also removes the key before it looks again
 
 None == 0
 Ent == 1..MaxEnt
@@ -50,13 +51,14 @@ Spend(p) ==
     /\ pc[p] = "got"
     /\ IF AtomicForget /\ dead[e]
        THEN /\ pc' = [pc EXCEPT ![p] = "idle"] /\ calls' = calls - 1     \* look the key up again
+            /\ table' = IF RetryDeletes THEN None ELSE table   \* Delete(key) removes whatever bucket is there by now
             /\ UNCHANGED <<tokens, idle, admitted>>
        ELSE /\ idle' = [idle EXCEPT ![e] = FALSE]
             /\ IF tokens[e] > 0 THEN tokens' = [tokens EXCEPT ![e] = @ - 1] /\ admitted' = admitted + 1
                                 ELSE UNCHANGED <<tokens, admitted>>
-            /\ pc' = [pc EXCEPT ![p] = "idle"] /\ UNCHANGED calls
+            /\ pc' = [pc EXCEPT ![p] = "idle"] /\ UNCHANGED <<calls, table>>
     /\ loc' = [loc EXCEPT ![p] = None]
-    /\ UNCHANGED <<table, dead, nent, gc>>
+    /\ UNCHANGED <<dead, nent, gc>>
 
 \* gc, under the bucket's lock: idle for longer than the collection age and full again
 GcDecide ==
